@@ -163,6 +163,8 @@ def find_item(text, kind, name):
                 break
             if mask[i] and text[i] == "(":
                 i = match_brace(text, mask, i, "(", ")")
+            elif mask[i] and text[i] == "[":
+                i = match_brace(text, mask, i, "[", "]")
             i += 1
         if text[i] == ";":
             return (pos, i + 1)
